@@ -44,16 +44,60 @@ Fixpoint noexit_expr (k : nat) (x : expr) {struct k} : bool :=
 
 Definition param_ids (params : list (string * N * span * ty)) : list N := map (fun p => snd (fst (fst p))) params.
 
+(* ---- kinds: a value is PLAIN (an int, a bool, a string, nil: what print, the operators and the conditions may
+   see) or a FUNCTION with the kinds of its parameters and of its result.  The kind of a parameter is read off its
+   declared type; everything that is not a function type is plain. ---- *)
+Inductive kind := KP | KF (args : list kind) (ret : kind).
+
+Fixpoint kind_eqb (a b : kind) {struct a} : bool :=
+  match a, b with
+  | KP, KP => true
+  | KF xs x, KF ys y =>
+      (fix go (xs ys : list kind) {struct xs} : bool :=
+         match xs, ys with
+         | [], [] => true
+         | x' :: xs', y' :: ys' => kind_eqb x' y' && go xs' ys'
+         | _, _ => false
+         end) xs ys && kind_eqb x y
+  | _, _ => false
+  end.
+
+Lemma kind_eqb_eq : forall a b, kind_eqb a b = true -> a = b.
+Proof.
+  fix IH 1. intros [|xs x] [|ys y] H; try discriminate; [reflexivity|].
+  cbn [kind_eqb] in H. apply andb_prop in H as [H1 H2]. f_equal; [|apply IH; exact H2].
+  revert ys H1. induction xs as [|x' xs IHx]; intros [|y' ys] H1; try discriminate; [reflexivity|].
+  apply andb_prop in H1 as [A B]. f_equal; [apply IH; exact A | apply IHx; exact B].
+Qed.
+
+Fixpoint kind_of_ty (t : ty) : kind :=
+  match t with
+  | TFn _ ps r _ _ => KF (map kind_of_ty ps) (kind_of_ty r)
+  | _ => KP
+  end.
+
+Definition param_kinds (params : list (string * N * span * ty)) : list kind := map (fun p => kind_of_ty (snd p)) params.
+
+(* the scope of a function body: the plain parameters join the user variables, the function parameters the
+   callable functions (in the order the call binds them) *)
+Fixpoint bind_scope (ps : list N) (ks : list kind) (sc : list N) (fl : list (N * kind)) : list N * list (N * kind) :=
+  match ps, ks with
+  | p :: ps', KP :: ks' => bind_scope ps' ks' (p :: sc) fl
+  | p :: ps', K :: ks' => bind_scope ps' ks' sc ((p, K) :: fl)
+  | _, _ => (sc, fl)
+  end.
+
 Section Frag.
 Variable pv : N.      (* the id of the external `print` *)
 Variable sv : N.      (* the id of `start` *)
 Variable bound : N.   (* |r_vars| + 1 *)
-(* fl (an argument below) = the functions that can be called by name here, with their arities *)
+(* fl (an argument below) = the functions that can be called by name here -- functions defined in scope and
+   function parameters --, with their kinds *)
 
-Definition fun_arity (fl : list (N * nat)) (f : N) : option nat :=
+Definition fun_kind (fl : list (N * kind)) (f : N) : option kind :=
   match find (fun fa => fst fa =? f) fl with Some fa => Some (snd fa) | None => None end.
 
-Definition fresh_id (fl : list (N * nat)) (sc : list N) (v : N) : bool :=
+Definition fresh_id (fl : list (N * kind)) (sc : list N) (v : N) : bool :=
   negb (memN v sc) && negb (v =? pv) && negb (v =? sv) && (v <? bound) && negb (memN v (map fst fl)).
 
 Definition assign_op (op : binop) : bool :=
@@ -62,15 +106,22 @@ Definition assign_op (op : binop) : bool :=
 Definition is_some {A} (o : option A) : bool := match o with Some _ => true | None => false end.
 
 (* the parameters of a function: new ids, pairwise different *)
-Fixpoint params_ok (fl : list (N * nat)) (sc : list N) (ps : list N) : bool :=
+Fixpoint params_ok (fl : list (N * kind)) (sc : list N) (ps : list N) : bool :=
   match ps with
   | [] => true
   | p :: ps' => fresh_id fl sc p && params_ok fl (p :: sc) ps'
   end.
 
-(* expressions; sc = the user variables in scope.
+(* a function-valued argument: the name of a function in scope (a defined function or a function parameter) *)
+Definition frag_fexpr (fl : list (N * kind)) (x : expr) : option kind :=
+  match x with
+  | ERead f _ => match fun_kind fl f with Some (KF a r) => Some (KF a r) | _ => None end
+  | _ => None
+  end.
+
+(* PLAIN expressions; sc = the user variables in scope.
    if-expressions: an `else` branch only in last position; the bodies are statement lists in their own scope. *)
-Fixpoint frag_expr (fl : list (N * nat)) (k : nat) (sc : list N) (x : expr) {struct k} : bool :=
+Fixpoint frag_expr (fl : list (N * kind)) (k : nat) (sc : list N) (x : expr) {struct k} : bool :=
   match k with
   | O => false
   | S k =>
@@ -83,16 +134,24 @@ Fixpoint frag_expr (fl : list (N * nat)) (k : nat) (sc : list N) (x : expr) {str
           if f =? pv then
             match args with [a] => negb (memN pv sc) && frag_expr fl k sc a | _ => false end      (* print(a) *)
           else                                                                              (* f(a1, ..., an) *)
-            match fun_arity fl f with
-            | Some ar => Nat.eqb (length args) ar && forallb (frag_expr fl k sc) args
-            | None => false
+            match fun_kind fl f with
+            | Some (KF ks KP) =>
+                (fix go (ks : list kind) (args : list expr) {struct ks} : bool :=
+                   match ks, args with
+                   | [], [] => true
+                   | KP :: ks', a :: args' => frag_expr fl k sc a && go ks' args'
+                   | K :: ks', a :: args' =>
+                       match frag_fexpr fl a with Some K' => kind_eqb K' K | None => false end && go ks' args'
+                   | _, _ => false
+                   end) ks args
+            | _ => false
             end
       | EIf branches _ => frag_branches fl k sc branches
       | _ => false
       end
   end
 
-with frag_branches (fl : list (N * nat)) (k : nat) (sc : list N) (brs : list ifbranch) {struct k} : bool :=
+with frag_branches (fl : list (N * kind)) (k : nat) (sc : list N) (brs : list ifbranch) {struct k} : bool :=
   match k with
   | O => false
   | S k =>
@@ -106,7 +165,7 @@ with frag_branches (fl : list (N * nat)) (k : nat) (sc : list N) (brs : list ifb
   end
 
 (* statements: the scope after the statement, None = outside the fragment *)
-with frag_stmt (fl : list (N * nat)) (k : nat) (sc : list N) (s : stmt) {struct k} : option (list N) :=
+with frag_stmt (fl : list (N * kind)) (k : nat) (sc : list N) (s : stmt) {struct k} : option (list N) :=
   match k with
   | O => None
   | S k =>
@@ -132,10 +191,10 @@ with frag_stmt (fl : list (N * nat)) (k : nat) (sc : list N) (s : stmt) {struct 
 (* statement lists -- the body of a function, of a block, of a loop, of an if-branch: statements of the fragment and
    definitions of LOCAL functions  f :: fn ... end.  A local function sees what is in scope where it is defined -- the
    parameters and locals of the enclosing function(s) so far (mutable ones too: it reads and assigns the same
-   variables), the globals, the callable functions and itself -- and can be called by name after its definition until
-   the end of the list, from nested blocks and from later local functions too.  The result is the scope and the
-   callable functions at the end of the list. *)
-with frag_stmts (fl : list (N * nat)) (k : nat) (sc : list N) (ss : list stmt) {struct k} : option (list N * list (N * nat)) :=
+   variables), the globals, the callable functions and itself -- and can be called by name, or passed to a function
+   parameter, after its definition until the end of the list.  The result is the scope and the callable functions at
+   the end of the list. *)
+with frag_stmts (fl : list (N * kind)) (k : nat) (sc : list N) (ss : list stmt) {struct k} : option (list N * list (N * kind)) :=
   match k with
   | O => None
   | S k =>
@@ -145,8 +204,10 @@ with frag_stmts (fl : list (N * nat)) (k : nat) (sc : list N) (ss : list stmt) {
           match s with
           | SDefinition _ fv _ _ (EFunction _ params _ body _ _) _ =>
               let ps := param_ids params in
-              let fl' := (fv, length ps) :: fl in
-              if fresh_id fl sc fv && params_ok fl' sc ps && is_some (frag_stmts fl' k (rev ps ++ sc) body)
+              let ks := param_kinds params in
+              let fl' := (fv, KF ks KP) :: fl in
+              if fresh_id fl sc fv && params_ok fl' sc ps
+                 && is_some (frag_stmts (snd (bind_scope ps ks sc fl')) k (fst (bind_scope ps ks sc fl')) body)
               then frag_stmts fl' k sc ss' else None
           | _ =>
               match frag_stmt fl k sc s with
@@ -155,6 +216,16 @@ with frag_stmts (fl : list (N * nat)) (k : nat) (sc : list N) (ss : list stmt) {
               end
           end
       end
+  end.
+
+(* the arguments of a call against the kinds of the parameters (the same function as in frag_expr) *)
+Fixpoint frag_args (fl : list (N * kind)) (k : nat) (sc : list N) (ks : list kind) (args : list expr) {struct ks} : bool :=
+  match ks, args with
+  | [], [] => true
+  | KP :: ks', a :: args' => frag_expr fl k sc a && frag_args fl k sc ks' args'
+  | K :: ks', a :: args' =>
+      match frag_fexpr fl a with Some K' => kind_eqb K' K | None => false end && frag_args fl k sc ks' args'
+  | _, _ => false
   end.
 
 End Frag.
@@ -187,17 +258,18 @@ Fixpoint split_last {A} (l : list A) : option (list A * A) :=
 (* the outer statements: global values and functions.
    scg = the global values so far, fl = the functions so far; a function sees the earlier globals and
    functions and itself (recursion) *)
-Fixpoint frag_items (pv sv bound : N) (k : nat) (scg : list N) (fl : list (N * nat)) (items : list stmt)
-  : option (list N * list (N * nat)) :=
+Fixpoint frag_items (pv sv bound : N) (k : nat) (scg : list N) (fl : list (N * kind)) (items : list stmt)
+  : option (list N * list (N * kind)) :=
   match items with
   | [] => Some (scg, fl)
   | s :: rest =>
       match s with
       | SDefinition _ fv _ _ (EFunction _ params _ body _ _) _ =>
           let ps := param_ids params in
-          let fl' := (fv, length ps) :: fl in
+          let ks := param_kinds params in
+          let fl' := (fv, KF ks KP) :: fl in
           if fresh_id pv sv bound fl scg fv && params_ok pv sv bound fl' scg ps
-             && is_some (frag_stmts pv sv bound fl' k (rev ps ++ scg) body)
+             && is_some (frag_stmts pv sv bound (snd (bind_scope ps ks scg fl')) k (fst (bind_scope ps ks scg fl')) body)
           then frag_items pv sv bound k scg fl' rest else None
       | SDefinition _ _ _ _ _ _ =>
           match frag_stmt pv sv bound fl k scg s with
@@ -208,7 +280,9 @@ Fixpoint frag_items (pv sv bound : N) (k : nat) (scg : list N) (fl : list (N * n
       end
   end.
 
-(* STAGE 4d-s (4c' + STRING values: literals, + as concatenation, == != < <= > >=, <=>, print);
+(* STAGE 4e (4d-s + FUNCTIONS AS ARGUMENTS: the name of a function -- a top-level function, a local closure, a
+   function parameter -- passed to a parameter of function type, which the callee calls or passes on; kinds, below);
+   4d-s = 4c' + STRING values: literals, + as concatenation, == != < <= > >=, <=>, print;
    4c' = 4c + local functions in ANY statement list: blocks, loop bodies, if-branches; 4c = 4b + LOCAL FUNCTIONS:
    closures over the variables of the enclosing function, mutable ones included, called by name, see frag_stmts;
    4b = 4a + outer definitions in any order the resolver allows, also after `start`; 4a = 3b + early return
@@ -237,18 +311,23 @@ Fixpoint frag_items (pv sv bound : N) (k : nat) (scg : list N) (fl : list (N * n
        this is implied by acceptance for what matters: no break/continue can leave the condition);
    expressions are int, bool and string literals, reads of variables in scope, + - * (+ on two strings concatenates),
    the six comparisons (on two ints or on two strings: byte-wise lexicographic order),
-   <=> (assert-equal), and/or/not, unary minus, calls print(e), calls f(e1, ..., en) of functions by
-   name (top-level or local), and if/elif/else expressions and statements whose branches are statement lists.
-   NOT in the fragment: `ret` without a value (it returns Sylt's nil, the table __NIL), functions as VALUES
-   (a function passed as an argument, returned, stored in a variable or a lambda expression: a function name is only
-   ever called), blobs, tuples, lists, enums/case, floats, division. *)
+   <=> (assert-equal), and/or/not, unary minus, calls print(e), calls f(a1, ..., an) of functions by
+   name (top-level, local, or a function parameter; an argument ai is a plain expression or, for a parameter of
+   function kind, the name of a function of that kind), and if/elif/else expressions and statements whose branches are statement lists.
+   KINDS.  Every value is plain (int, bool, string, nil) or a function; the kind of a parameter is read off its
+   declared type (`fn T1, ..., Tn -> T` is a function kind, everything else plain).  Function values exist only as the
+   values of function names (definitions `f :: fn ...` and parameters of function kind); such a name can be called and
+   passed to a parameter of the same function kind, nothing else: so print, the operators, the conditions and the
+   assignments only ever see plain values, and the result of every call is plain.
+   NOT in the fragment: `ret` without a value (it returns Sylt's nil, the table __NIL), lambda expressions, functions
+   that return functions or store them in variables, blobs, tuples, lists, enums/case, floats, division. *)
 Definition frag (k : nat) (r : resolved) : bool :=
   let bound := N.of_nat (length (r_vars r)) + 1 in
   match r_stmts r with
   | SExternalDefinition name pv _ _ _ :: items =>
       String.eqb name "print" && (pv <? bound)
       && match find_start (r_vars r), frag_items pv bound bound k [] [] items with
-         | Some s, Some (scg, fl) => match fun_arity fl s with Some O => true | _ => false end
+         | Some s, Some (scg, fl) => match fun_kind fl s with Some (KF [] KP) => true | _ => false end
          | _, _ => false
          end
   | _ => false
